@@ -50,16 +50,33 @@ theorem inlLast_of_full (t : Bytes) (hv : Valid t) (h : t.length = 16) : inlLast
     simp [List.getElem?_eq_getElem this]
   exact valid_getLast_lt hv _ hl
 
+/-- the `%`-free `wrappingSub` is `usize::wrapping_sub` on in-range operands -/
+theorem wrappingSub_eq_mod (a b : Nat) (ha : a < USIZE) (hb : b ≤ USIZE) :
+    wrappingSub a b = (a + USIZE - b) % USIZE := by
+  unfold wrappingSub
+  split
+  · rw [show a + USIZE - b = (a - b) + USIZE by omega, Nat.add_mod_right, Nat.mod_eq_of_lt (by omega)]
+  · rw [Nat.mod_eq_of_lt (by omega)]
+
+/-- the decoding of `Handle::len` on an inline handle, as the source writes it (mod 2^64) -/
+theorem inlLen_eq_wrapping (raw : Bytes) :
+    inlLen raw = min ((inlLast raw + USIZE - Gen.mask1100) % USIZE) MAX_INLINE := by
+  unfold inlLen
+  rw [wrappingSub_eq_mod]
+  · unfold inlLast USIZE; have := (raw.getD 15 0).toNat_lt; omega
+  · have : Gen.mask1100 = 192 := by decide
+    rw [this]; unfold USIZE; omega
+
 /-- what `len()` decodes from a freshly built inline buffer is the length of the text -/
 theorem inlLen_inlNew (t : Bytes) (hv : Valid t) (h : t.length ≤ 16) : inlLen (inlNew t) = t.length := by
   have hm : MAX_INLINE = 16 := Tie.maxInline_eq
   have hk : Gen.mask1100 = 192 := by decide
-  unfold inlLen
+  unfold inlLen wrappingSub
   rcases Nat.lt_or_eq_of_le h with h | h
-  · rw [inlLast_inlNew_of_lt t h, hm, hk]; unfold USIZE; omega
+  · rw [inlLast_inlNew_of_lt t h, hm, hk]; unfold USIZE; split <;> omega
   · rw [inlNew_eq_of_eq t h]
     have := inlLast_of_full t hv h
-    rw [hm, hk]; unfold USIZE; omega
+    rw [hm, hk]; unfold USIZE; split <;> omega
 
 theorem take_inlNew (t : Bytes) (h : t.length ≤ 16) : (inlNew t).take t.length = t := by
   unfold inlNew; simp
